@@ -250,6 +250,7 @@ func c14dU(o c14dJ) *unstructured.Unstructured {
 func (l *c14dLive) run(ev *c14dEvent) (keys []string) {
 	c := l.dc
 	l.queue.Reset()
+	keys = []string{}
 	func() {
 		defer func() {
 			if r := recover(); r != nil {
@@ -879,6 +880,15 @@ func c14dRecord(w *vh.CaseWriter, l *c14dLive, ev *c14dEvent, keys []string) {
 	}
 }
 
+// c14dFeatures: what known-findings entries match on
+func c14dFeatures(src, kind, role, upd string) []string {
+	f := []string{src + "-" + kind, "role-" + role, "decorator"}
+	if upd != "" {
+		f = append(f, "update-"+upd)
+	}
+	return f
+}
+
 func TestVerif_C14d(t *testing.T) {
 	env := vh.GetEnv()
 	if env.OutDir == "" {
@@ -891,7 +901,7 @@ func TestVerif_C14d(t *testing.T) {
 	}
 	emit := func(id string, l *c14dLive, ev *c14dEvent) {
 		keys := l.run(ev)
-		replay := c14dJ{"world": l.spec, "event": ev, "enqueued": keys}
+		replay := c14dJ{"world": l.spec, "event": ev, "enqueued": keys, "features": c14dFeatures(ev.Src, ev.Kind, ev.Role, ev.Upd)}
 		if err := w.Add(id, c14dCoqCase(l, ev, keys), "C14_check", replay); err != nil {
 			t.Fatal(err)
 		}
